@@ -113,6 +113,14 @@ CHECKS.update({
             "DESIGN.md section 5 C05"),
 })
 
+CHECKS.update({
+    "C09": ("other",
+            "real kind inference (concrete) + real interpreter on values carrying a symbolic type tag (z3 Int over the type universe) with promotion rules as z3 terms; input and user-function result types constrained only by their kinds; z3 validity query at every store; concrete side check of built-in result kinds",
+            "Bounded symbolic checking over types: for every typed program on which inference succeeds, every assigned variable has a kind and, for ALL type assignments to inputs and user-function results that conform to their kinds, every value the interpreter stores conforms to the inferred kind of its variable (z3 decides per store). Built-in result kinds vs. the real NumPy-based implementations are a labelled concrete side check.",
+            "Trusted: z3, symx, the TypedSym promotion rules (Python/NumPy documented promotion), builtin typing table obtained from the current implementations. Value-dependent complexification of powers outside.",
+            "DESIGN.md section 5 C09"),
+})
+
 NOT_APPLICABLE = {
 }
 
